@@ -71,12 +71,12 @@ fn models(tier: Tier) -> Vec<Model> {
             v.extend(gen::m5(0).into_iter().step_by(11));
         }
         Tier::Thorough => {
-            v.extend(gen::m1(1).into_iter().step_by(19));
-            v.extend(gen::m2(1).into_iter().step_by(2503));
-            v.extend(gen::m3(1).into_iter().step_by(37));
-            v.extend(gen::m4(1).into_iter().step_by(11));
-            v.extend(gen::m5(1).into_iter().step_by(5));
-            v.extend(gen::m6(1).into_iter().step_by(3));
+            v.extend(gen::m1(1).into_iter().step_by(5));
+            v.extend(gen::m2(1).into_iter().step_by(499));
+            v.extend(gen::m3(1).into_iter().step_by(9));
+            v.extend(gen::m4(1).into_iter().step_by(3));
+            v.extend(gen::m5(1).into_iter().step_by(1));
+            v.extend(gen::m6(1).into_iter().step_by(1));
         }
     }
     v
@@ -97,10 +97,15 @@ impl Property for C11 {
     fn level(&self) -> &'static str {
         "fault_enumeration"
     }
+    fn prepare(&self, _tier: Tier) -> Result<(), String> {
+        crate::props::c14::build_cli_hooked()
+    }
     fn rule(&self, tier: Tier) -> String {
         format!(
-            "Strides of M1/M3/M4 x solve kind {{satisfy, complete iteration, optimise with LinearSatUnsat / LinearUnsatSat x minimise / maximise x objective x0 / the view -x0+1}} x 2 branchers; a counting TerminationCondition first counts the polls N of the uninterrupted run (runs with N > {} are skipped and counted), then for EVERY k in 0..=N the run is repeated with should_stop() returning true from poll k on, and once more returning true only at poll k; a case = (model, kind, brancher) and each case performs 2(N+1) interrupted executions (counter interrupted_runs). Oracle: the result is Unknown, or (optimise) Satisfiable(best) with best a solution, or the CORRECT definitive answer; afterwards the same solver is asked the same question with a condition that never fires and must give the correct answer; for iterations interrupted by a condition that fires once, the same iterator is also asked to continue after the Unknown and must still yield every solution exactly once. Exhaustive over k.",
-            max_polls(tier)
+            "Strides of M1/M3/M4 x solve kind {{satisfy, complete iteration, optimise with LinearSatUnsat / LinearUnsatSat x minimise / maximise x objective x0 / the view -x0+1}} x 2 branchers; a counting TerminationCondition first counts the polls N of the uninterrupted run (runs with N > {} are skipped and counted), then for EVERY k in 0..=N the run is repeated with should_stop() returning true from poll k on, and once more returning true only at poll k; a case = (model, kind, brancher) and each case performs 2(N+1) interrupted executions (counter interrupted_runs). Oracle: the result is Unknown, or (optimise) Satisfiable(best) with best a solution, or the CORRECT definitive answer; afterwards the same solver is asked the same question with a condition that never fires and must give the correct answer; for iterations interrupted by a condition that fires once, the same iterator is also asked to continue after the Unknown and must still yield every solution exactly once. Exhaustive over k. Front ends: {} inputs (FlatZinc satisfy / -a / minimise / maximise, DIMACS CNF incl. structured unsatisfiable formulas, WCNF) are run through the binary built with the hooks, whose time budget is made to fire at poll k for every k from 0 until a run is no longer interrupted (cap {}): printed FlatZinc blocks are solutions, ========== only after all solutions / an optimal one, UNSATISFIABLE only without solutions, s OPTIMUM FOUND only with the true optimum, model lines satisfy the (hard) clauses and cost what the o line says, UNKNOWN only when the budget fired.",
+            max_polls(tier),
+            crate::props::c11_cli::len(tier),
+            if tier.quick() { 40 } else { 400 }
         )
     }
     fn assumptions(&self) -> Vec<String> {
@@ -132,6 +137,7 @@ impl Property for C11 {
                 }
             }
         }
+        crate::props::c11_cli::run(ctl, idx);
     }
 }
 
